@@ -153,6 +153,65 @@ def files(ctx, out):
             out.corr_mismatch(f"{nm} variant", rp, impl=p_, model=q_)
 
 
+def nothing_and_padding(ctx, out):
+    """(a) inputs with no section at all lack every required section: rejected with ValueError, through a stream and through real
+    files (empty file, BOM-only file); (b) a brace with blanks around it is not a brace: inside any section body — known or unknown —
+    it is an ordinary body line, so the chart parses exactly as it does without it (one more unparsable-line warning at most)"""
+    rng = ctx.sub("nothing")
+    for nm, data in (("empty-stream", ""),):
+        x = impl.run_chart(data)
+        rp = {"op": "missing", "text": data, "dropped": "everything"}
+        out.case("E" + nm, True, None, tags=[nm])
+        if x != "E ValueError":
+            out.violation("missing-" + nm, f"a text without any section gave {x[:80]}", rp, observed=x[:200], promised="E ValueError")
+    for nm, data in (("empty-file", b""), ("bom-only-file", b"\xef\xbb\xbf")):
+        x = impl.run_path(data)
+        rp = {"op": "nothing-path", "hex": data.hex()}
+        out.case("E" + nm, True, None, tags=[nm])
+        if x != "E ValueError":
+            out.violation("missing-" + nm, f"{nm}: a file without any section gave {x[:80]}", rp, observed=x[:200], promised="E ValueError")
+    prof = gen.Profile(max_tracks=2, garbage=0.0, unknown_sections=0.5, crlf=0.3)
+    cases = []
+    for _ in range(ctx.n(60, 6000)):
+        src = gen.rand_src(rng, prof)
+        seed = rng.randrange(1 << 30)
+        import random as _r
+        R = gen.render(src, _r.Random(seed), prof, garbage=False)
+        lines = R.lines[:]
+        inside = [k for k, l in enumerate(lines) if l not in ("{",) and not l.startswith("[") and k > 0] or [len(lines) - 1]
+        # positions strictly inside bodies: after a "{" line and not after the closing "}"
+        body_pos = []
+        depth = False
+        for k, l in enumerate(lines):
+            if l == "{":
+                depth = True
+                body_pos.append(k + 1)
+            elif l == "}":
+                depth = False
+            elif depth:
+                body_pos.append(k + 1)
+        ins = []
+        for _ in range(rng.randint(1, 3)):
+            ins.append((rng.choice(body_pos), rng.choice(["  }", "} ", "\t}", " { ", "  {", "{ ", "\u3000}", "}\xa0"])))
+        for pos, g in sorted(ins, reverse=True):
+            lines.insert(pos, g)
+        text2 = R.newline.join(lines) + R.newline
+        cases.append((R.text if R.text.endswith(R.newline) else R.text + R.newline, text2, len(ins)))
+    a, b = common.run_charts([(t, None) for c in cases for t in c[:2]])
+    for k, (t1, t2, n) in enumerate(cases):
+        x1, x2, y2 = a[2 * k], a[2 * k + 1], b[2 * k + 1]
+        rp = {"op": "padded", "base": t1, "with_padded_braces": t2}
+        out.case("P" + fw.h(t2), True, None, tags=["padded-brace-in-body"])
+        out.traces += 1
+        if common.framing_proj(x2) != common.framing_proj(y2):
+            p_, q_ = fw.first_diff(x2, y2)
+            out.corr_mismatch("padded brace inside a body", common.chart_replay(t2), impl=p_, model=q_)
+        if strip_warn(x1) != strip_warn(x2):
+            p_, q_ = fw.first_diff(strip_warn(x1), strip_warn(x2))
+            out.violation("padded-" + fw.h(t2), f"{n} padded brace line(s) inside section bodies changed the parse: {p_[:100]!r} vs {q_[:100]!r}", rp,
+                          observed=q_[:200], promised=p_[:200])
+
+
 def malformed(ctx, out):
     """scanner correspondence on broken framing (model quirks are compared, nothing is promised)"""
     rng = ctx.sub("malformed")
@@ -196,6 +255,7 @@ def slice(ctx: fw.Ctx) -> fw.Outcome:
     out = fw.Outcome(RULE)
     variants(ctx, out)
     files(ctx, out)
+    nothing_and_padding(ctx, out)
     malformed(ctx, out)
     return out
 
@@ -211,6 +271,12 @@ def replay(ctx, data):
     if op == "missing":
         x = impl.run_chart(data["text"])
         return x != "E ValueError", x[:200]
+    if op == "nothing-path":
+        x = impl.run_path(bytes.fromhex(data["hex"]))
+        return x != "E ValueError", x[:200]
+    if op == "padded":
+        x1, x2 = impl.run_chart(data["base"]), impl.run_chart(data["with_padded_braces"])
+        return strip_warn(x1) != strip_warn(x2), str(fw.first_diff(strip_warn(x1), strip_warn(x2)))[:300]
     if op == "unknown":
         x = impl.run_chart(data["text"])
         if x.startswith("E "):
